@@ -14,7 +14,8 @@ import tempfile
 import numpy as np
 
 from mc.core import Report, viol, collect_samples
-from mc.molecules import write_xyz, quat_to_matrix, cube_rotations, generic_quaternions, fibonacci_directions
+from mc.molecules import (write_xyz, quat_to_matrix, cube_rotations, generic_quaternions, fibonacci_directions,
+                          special_quaternions)
 
 from molgri.io import OneMoleculeReader
 from molgri.molecules.pts import Pseudotrajectory
@@ -29,6 +30,8 @@ def make_array(spec):
         return np.asarray(FullGrid(spec["b"], spec["o"], spec["t"]).get_full_grid_as_array(), dtype=float)
     nq = spec["n_generic"]
     quats = np.concatenate([cube_rotations(), generic_quaternions(nq)])
+    if spec.get("special"):
+        quats = special_quaternions()
     dirs = fibonacci_directions(spec["n_pos"])
     radii = np.array([0.0, 1.7, 3.1, 12.5])
     pos = np.array([radii[i % 4] * d for i, d in enumerate(dirs)])
@@ -119,11 +122,76 @@ def run_case(case):
         shutil.rmtree(d, ignore_errors=True)
 
 
+def ptwriter_case(case):
+    """call histories on the package's writer: all words of length <= 3 over {write_structure, read pt_universe,
+    write_full_pt}; the frames (in memory and as written to disk) must be the prescribed placements in every order"""
+    import itertools
+    import MDAnalysis as mda
+    from molgri.io import PtWriter
+    m1, m2 = case["m1"], case["m2"]
+    d = tempfile.mkdtemp(prefix="verif_c10w_")
+    vs = []
+    words_run = 0
+    try:
+        p1, p2 = write_xyz(m1, d), write_xyz(m2, d)
+        arr = make_array(case["array"])
+        gpath = os.path.join(d, "grid.npy")
+        np.save(gpath, arr)
+        from mc.molecules import MOLECULES
+        u1 = OneMoleculeReader(p1).get_molecule()
+        u2 = OneMoleculeReader(p2).get_molecule()
+        raw1 = np.array([a[1:] for a in MOLECULES[m1]], dtype=float)
+        raw2 = np.array([a[1:] for a in MOLECULES[m2]], dtype=float)
+        ms1, ms2 = u1.atoms.masses.astype(float), u2.atoms.masses.astype(float)
+        ref1 = raw1 - (ms1[:, None] * raw1).sum(0) / ms1.sum()
+        ref2 = raw2 - (ms2[:, None] * raw2).sum(0) / ms2.sum()
+        want = np.array([np.concatenate([ref1, ref2 @ quat_to_matrix(r[3:]).T + r[:3]]) for r in arr])
+
+        def frames_of(U):
+            return np.array([np.asarray(ts.positions, dtype=float).copy() for ts in U.trajectory])
+
+        for L in (1, 2, 3):
+            for word in itertools.product(("ws", "pt", "wf"), repeat=L):
+                words_run += 1
+                key = f"C10|ptwriter|m1={m1}|m2={m2}|word={'>'.join(word)}"
+                try:
+                    w = PtWriter(p1, p2, 30.0, gpath)
+                    for i, ev in enumerate(word):
+                        if ev == "ws":
+                            w.write_structure(7.5, os.path.join(d, f"s_{i}.gro"))
+                        elif ev == "pt":
+                            F = frames_of(w.pt_universe)
+                            if F.shape != want.shape or np.abs(F - want).max() > TOL:
+                                vs.append(viol(key + f"|step={i}|pt_universe", "writer's pseudotrajectory frames are not the "
+                                               "prescribed placements after this call history", dict(case, word=list(word)),
+                                               observed=float(np.abs(F - want).max()) if F.shape == want.shape else list(F.shape)))
+                                break
+                        else:
+                            tp, sp = os.path.join(d, f"t_{i}.xyz"), os.path.join(d, f"st_{i}.gro")
+                            w.write_full_pt(tp, sp)
+                            F = frames_of(mda.Universe(sp, tp))
+                            if F.shape != want.shape or np.abs(F - want).max() > 2e-4:
+                                vs.append(viol(key + f"|step={i}|written_file", "frames written to disk are not the "
+                                               "prescribed placements after this call history", dict(case, word=list(word)),
+                                               observed=float(np.abs(F - want).max()) if F.shape == want.shape else list(F.shape)))
+                                break
+                except Exception as e:
+                    vs.append(viol(key + "|raises", f"{type(e).__name__}: {str(e)[:100]}", dict(case, word=list(word))))
+                if len(vs) >= 3:
+                    break
+            if len(vs) >= 3:
+                break
+        return {"violations": vs, "frames": words_run * len(arr), "worst": 0.0}
+    finally:
+        shutil.rmtree(d, ignore_errors=True)
+
+
 def cases(tier):
     arrays = [{"type": "grid", "name": "grid_1_ico5_2r", "b": "1", "o": "ico_5", "t": "[0.2,0.3]"},
               {"type": "grid", "name": "grid_cube4D8_ico12_3r", "b": "cube4D_8", "o": "ico_12", "t": "[0.1,0.25,0.3]"},
               {"type": "grid", "name": "grid_randomQ7_cube3D9_1r", "b": "randomQ_7", "o": "cube3D_9", "t": "0.45"},
-              {"type": "nongrid", "name": "nongrid_12x54", "n_pos": 12, "n_generic": 30}]
+              {"type": "nongrid", "name": "nongrid_12x54", "n_pos": 12, "n_generic": 30},
+              {"type": "nongrid", "name": "nongrid_special_4x82", "n_pos": 4, "n_generic": 0, "special": True}]
     if tier == "thorough":
         arrays.append({"type": "nongrid", "name": "nongrid_24x224", "n_pos": 24, "n_generic": 200})
         arrays.append({"type": "grid", "name": "grid_cube4D40_ico42_2r", "b": "cube4D_40", "o": "ico_42", "t": "[0.2,0.5]"})
@@ -141,13 +209,18 @@ def run(ctx):
     for c in cs:   # rows replayed from the initial state: a comb of every 7th row (all rows for arrays <= 60 rows)
         c["single_rows"] = "comb7"
     # resolve combs against the real array lengths inside the worker (indices beyond the array are dropped there)
-    res = ctx.pmap(run_case_wrapped, cs, chunksize=1, recheck=2)
+    wcs = [{"ptwriter": True, "m1": m1, "m2": m2, "array": {"type": "grid", "name": "grid_cube4D4_ico5_2r", "b": "cube4D_4",
+                                                              "o": "ico_5", "t": "[0.2,0.45]"}}
+           for m1, m2 in (("H2O", "NH3"), ("He", "CHFClBr"))]
+    res = ctx.pmap(run_case_wrapped, cs, chunksize=1, recheck=2) + ctx.pmap(ptwriter_case, wcs, chunksize=1, recheck=1)
+    cs = cs + wcs
     frames = sum(r["frames"] for r in res)
     for r in res:
         rep.add_violations(r["violations"])
     rep.coverage = {
         "states": frames, "transitions": frames, "traces_validated_against_impl": len(cs),
         "samples": collect_samples([f"{c['m1']}+{c['m2']} on {c['array']['name']}" for c in cs], 5),
+        "ptwriter_call_histories": 39 * len(wcs),
         "evaluations": frames, "distinct_nontrivial": len(cs),
         "max_abs_deviation_A": max(r.get("worst", 0) for r in res),
         "rule": "molecule pairs x arrays (3 real grids + non-grid array of 12 positions x (24 cube rotations + 30 generic "
@@ -167,4 +240,6 @@ def run_case_wrapped(case):
 
 
 def replay(case):
+    if case.get("ptwriter"):
+        return ptwriter_case(case)["violations"]
     return run_case_wrapped(case)["violations"]
